@@ -475,7 +475,7 @@ def declaredPorts (num : Nat) (m : Assoc Nat IfCfg) : List Nic :=
     | none => loopNic none
 
 /-- extra host NICs: the entries of `network_interfaces` become NIC 2, 3, … in ascending key order (the configuration pages
-do not say what the keys mean; every shipped file uses 2, 3, … so that key = NIC number: `C20_nic_number_is_key`). -/
+do not say what the keys mean; every shipped file uses 2, 3, … so that key = NIC number — an `example` in Props/C20.lean). -/
 def declaredNics (m : Assoc Nat IfCfg) : List Nic := (sortByKey m).map fun e => nicOf e.2
 
 /-- every piece of software the node is asked to carry (pre-installed system software, the configured services and
